@@ -117,6 +117,34 @@ impl Report {
                 return false;
             }
         }
+        // corruption cases: image / file kind / offsets of the mutated byte
+        if let Some(img) = entry["case_image"].as_str() {
+            if f.artefact["case"]["image"].as_str() != Some(img) {
+                return false;
+            }
+        }
+        if let Some(k) = entry["case_file_kind"].as_str() {
+            if f.artefact["case"]["file_kind"].as_str() != Some(k) {
+                return false;
+            }
+        }
+        if let Some(roles) = entry["case_byte_roles"].as_array() {
+            let r = f.artefact["case"]["byte_role"].as_str();
+            if !roles.iter().any(|x| x.as_str() == r && r.is_some()) {
+                return false;
+            }
+        }
+        if let Some(clauses) = entry["clause_in"].as_array() {
+            if !clauses.iter().any(|x| x.as_str() == Some(f.clause.as_str())) {
+                return false;
+            }
+        }
+        if let Some(offs) = entry["case_offsets"].as_array() {
+            let o = f.artefact["case"]["offset"].as_u64();
+            if !offs.iter().any(|x| x.as_u64() == o && o.is_some()) {
+                return false;
+            }
+        }
         if let Some(o) = entry["last_op"].as_str() {
             if f.ops.last().map(|x| x.as_str()) != Some(o) {
                 return false;
@@ -141,6 +169,14 @@ impl Report {
                     known_hits.entry(id).or_insert((0, what)).0 += 1;
                 }
                 None => unknown.push(f),
+            }
+        }
+        // replay artefacts of earlier runs of this property are stale
+        if let Ok(rd) = std::fs::read_dir(root.join("replays")) {
+            for e in rd.flatten() {
+                if e.file_name().to_string_lossy().starts_with(&format!("{}-", self.property)) {
+                    let _ = std::fs::remove_file(e.path());
+                }
             }
         }
         let mut lines = vec![];
